@@ -41,17 +41,23 @@ func genElement(r *core.Rand, ownPct int) (el, kind string) {
 	switch p := r.Intn(100); {
 	case p < ownPct:
 		return core.Pick(r, []string{"1.1 ", "1.1 ", "1.0 "}) + phTag, "own"
-	case p < ownPct+12:
+	case p < ownPct+10:
 		// same configured name, another instance
 		return core.Pick(r, []string{"1.1 ", "1.0 "}) + proxyName + "-" + randHex(r, 20), "same-name"
-	case p < ownPct+18:
+	case p < ownPct+15:
 		// near misses of the shape
 		return "1.1 " + core.Pick(r, []string{proxyName + "-" + randHex(r, 19), proxyName + "-" + strings.ToUpper(randHex(r, 20)),
 			proxyName + "_" + randHex(r, 20), strings.ToUpper(proxyName) + "-" + randHex(r, 20), proxyName + "-", proxyName}), "near-miss"
-	case p < ownPct+26:
+	case p < ownPct+22:
 		// the tag inside a comment or as part of a longer pseudonym / with decoration
 		return core.Pick(r, []string{"1.1 x" + phTag, "1.1 " + phTag + ".example", "1.1 proxy (" + phTag + ")", "1.1 " + phTag + ":8080",
 			"1.1 " + phTag + " (comment)", "1.1 " + phTag + "0", "HTTP/1.1 " + phTag, "1.1  " + phTag}), "embeds"
+	case p < ownPct+26:
+		// the own element decorated with text that other parts of the proxy interpret (a comment after the tag)
+		return "1.1 " + phTag + " (" + core.Pick(r, phrasesAll) + ")", "embeds"
+	case p < ownPct+42:
+		// a foreign hop whose comment / pseudonym / whole element is such text
+		return genTextElement(r), "foreign-text"
 	default:
 		return core.Pick(r, foreignElements), "foreign"
 	}
@@ -166,6 +172,9 @@ func genChain(r *core.Rand, mode string) (*chainCase, []string) {
 		q.Absolute = true
 		q.Scheme = scheme
 		q.Authority = "origin.test"
+		if httpsAbsoluteOK(mode) && r.Chance(20) {
+			q.Scheme = "https" // the proxy itself speaks TLS to the origin; req.URL.Scheme == "https" as inside an intercepted session
+		}
 	}
 	base := []rig.Field{{Name: "Host", Value: "origin.test"}, {Name: "Case-Id", Value: id}}
 	for i, k := 0, r.Range(0, 3); i < k; i++ {
@@ -214,7 +223,7 @@ func genLoop(r *core.Rand) *loopCase {
 			if r.Chance(25) {
 				els = append(els, "1.1 "+proxyName+"-"+randHex(r, 20))
 			} else {
-				els = append(els, core.Pick(r, foreignElements))
+				els = append(els, foreignElement(r))
 			}
 		}
 		via = append(via, rig.Field{Name: core.Pick(r, viaSpellings), Value: strings.Join(els, ", ")})
@@ -256,7 +265,11 @@ func Run(ctx *core.Ctx) {
 		"http, https and socks5 upstream proxy / MITM / TLS listener / TLS listener with https upstream; origin-form, absolute-form, 18% CONNECT " +
 		"compared with Req.processConnect; HTTP/1.0 and 1.1) carrying a generated Via chain of 0-5 elements " +
 		"(foreign hops with comments, the instance's own element learned from a first request, same-name-other-suffix tags, near misses of the tag " +
-		"shape, the tag embedded in a comment / longer pseudonym) split over 1-3 field lines with varying separators and name spellings; loop cases: " +
+		"shape, the tag embedded in a comment / longer pseudonym, foreign hops and own-element decorations carrying text that other parts of the proxy " +
+		"interpret: phrases the error classification and net/http errors use, status texts, format verbs, quotes, backslashes, markup, non-ASCII, nested / " +
+		"unterminated / 1-4 KiB comments) split over 1-3 field lines with varying separators and name spellings, https:// absolute-form where the " +
+		"proxy dials the origin itself; a sweep of every such phrase x configuration next to the own element (before / after / both sides) and in chains " +
+		"without it; a detected loop's status, X-Forwarder-Error and body compared with the model's classification of the loop error (C18 loopclass); loop cases: " +
 		"a proxy chained to itself and two same-name instances A->B->A (upstream-proxy links, connect-to links, CONNECT), and A->B->origin, every link " +
 		"through a counting pass-through peer; fleet cases: self / A->B->A / A->B->terminal over every mix of http, https (TLS listeners, TLS-terminating relays) and " +
 		"socks5 upstream links, plain and CONNECT, entered through the main or an extra listener, the instances built from separate default configs, copies of one " +
@@ -307,6 +320,22 @@ func Run(ctx *core.Ctx) {
 				}
 			}
 		}()
+	}
+	// text sweep: every phrase that another part of the proxy interprets (error classification, status texts, log
+	// and format metacharacters, non-ASCII) in every configuration, next to the own element (2 of 3) or in a chain
+	// without it (1 of 3)
+	for rep, reps := 0, ctx.N(1, 4); rep < reps; rep++ {
+		for pi, phrase := range phrasesAll {
+			for mi, mode := range modes {
+				r := ctx.Rng.Sub()
+				cc := sweepChain(r, mode, phrase, (pi+mi+rep)%3 != 0)
+				ctx.Count("text-sweep")
+				if pi == 0 && mi < 2 && rep == 0 {
+					ctx.Sample(cc)
+				}
+				jobs <- job{chain: cc}
+			}
+		}
 	}
 	// interleave loop cases with chain cases
 	every := nChain / (nLoop + 1)
